@@ -12,7 +12,7 @@ RULE = ('PARSE ops calling microscpi::parser::parse directly, from several start
         'input => no continuation accepted; incomplete => no prefix accepted. non-trivial = distinct executed op')
 EXPLANATION = 'prefix determinacy / finality of parse (theorems); tie by PARSE ops; oracle relational on the implementation'
 
-ALPHA = [b'X', b'Q', b'1', b'e', b'+', b'.', b'#', b'H', b"'", b'"', b'*', b':', b';', b',', b'?', b' ', b'\n', b'\xff']
+ALPHA = [b'X', b'Q', b'1', b'e', b'+', b'.', b'#', b'H', b"'", b'"', b'*', b':', b';', b',', b'?', b' ', b'\n', b'\xff', b'\xc3']
 
 
 def kind(line):
@@ -28,6 +28,8 @@ def parse_ok(line):
 def single(line, case):
     if is_crash(line):
         return 'crash'
+    if case.meta.get('closed_unit') and line == 'inc':
+        return 'the input is a complete (closed string, terminated) unit, not the beginning of one: it may be refused but not be incomplete'
     if line.startswith('ok '):
         rest, _ = parse_ok(line)
         if rest >= case.meta['len']:
@@ -108,6 +110,12 @@ def cases(tier, rng, ifaces):
             gid += 1
             ys = [conts[(gid + j * 7) % len(conts)] for j in range(2)]
             add_group(out, gid, ['-', 'SYST', 'ECHO'][gid % 3] if gid % 5 == 0 else '-', x, ys, gid % 40 == 0)
+    # closed strings that end in a truncated multi-byte character, overlong forms, surrogates
+    for bad in (b'caf\xc3', b'\xe2\x82', b'\xf0\x9f\x98', b'\xc0\xaf', b'\xed\xa0\x80', b'a\x80', b'\xf4\x90\x80\x80'):
+        for q in (b'"', b"'"):
+            gid += 1
+            add_group(out, gid, '-', b'STR ' + q + bad + q + b'\n', [b'X\n', b'\xa9' + q + b'\n'], True)
+            out[-1 - len(b'STR ' + q + bad + q + b'\n') - 2].meta['closed_unit'] = True
     # rendered messages cut at every position
     nmsg = 120 if tier == 'quick' else 1500
     for _ in range(nmsg):
